@@ -84,6 +84,7 @@ type obs struct {
 	TClosed    int
 	Parked     []string
 	MaxQ       int
+	MaxUnsent  int    // largest number of payloads accepted (call returned ok) and not yet handed to the transport
 	Winner     int    // id of the Close call that took effect (-1: closed from inside, -2: never closed)
 	Stuck      string // a goroutine blocked although the scheduler's enabling condition said it could proceed
 	viol       []hx.Violation
@@ -160,6 +161,23 @@ func runCfg(c cfg, choose func(step int, en []*sched.Thread, last *sched.Thread)
 		st := netty.VerifState(ch)
 		if st.QLen > o.MaxQ {
 			o.MaxQ = st.QLen
+		}
+		if c.QCap > 0 {
+			acc, sent, failed := 0, 0, false
+			for _, cl := range o.Calls {
+				if cl.Res == "ok" {
+					acc++
+				}
+			}
+			for _, e := range tr.Snapshot() {
+				if e.Kind == "write" || e.Kind == "writev" {
+					sent += len(e.Bufs)
+					failed = failed || e.Err
+				}
+			}
+			if !failed && acc-sent > o.MaxUnsent {
+				o.MaxUnsent = acc - sent
+			}
 		}
 		if t.Point == "w.select" {
 			if cl := cur[t.Index]; cl != nil {
@@ -428,6 +446,9 @@ func check(c cfg, o *obs, meta *hx.Meta) {
 		if cl.Res == "nospace" && c.Until {
 			meta.Violate(hx.Violation{Property: "C18", What: "ErrAsyncNoSpace in blocking mode", Signature: "nospace", Replay: rep()})
 		}
+	}
+	if c.QCap > 0 && o.MaxUnsent > c.QCap+c.QCap/2+1 {
+		meta.Violate(hx.Violation{Property: "C18", What: fmt.Sprintf("%d payloads accepted and not yet sent: more than the queue size %d plus one batch (%d)", o.MaxUnsent, c.QCap, c.QCap/2+1), Signature: "bound", Replay: rep()})
 	}
 	if o.MaxQ > c.QCap {
 		meta.Violate(hx.Violation{Property: "C18", What: "queue longer than its capacity", Signature: "bound", Replay: rep()})
